@@ -306,3 +306,8 @@ Definition zero_store : cstore := fun _ => 0.
 Definition results2 (a b : thread cell) (sched : list nat) : list Z * list Z :=
   let c := run cell (init cell zero_store [a; b]) sched in (res c 0%nat, res c 1%nat).
 Definition alone (a : thread cell) : list Z := snd (run_thread cell zero_store a).
+
+(* a well-behaved operation on one instance: add z to its cell, return the old value *)
+Definition inst_add (i : nat) (z : Z) : op cell :=
+  {| op_fp := {| reads := [CInst i]; writes := [CInst i] |};
+     act := fun s => (cupd s (CInst i) (s (CInst i) + z), s (CInst i)) |}.
